@@ -71,3 +71,4 @@
 (declare-fun rankL (Lst) Int)
 (declare-fun yamlParseF (String) Val)
 (declare-fun yamlParseE (String) ErrV)
+(declare-const osEnviron SLst)
